@@ -473,3 +473,42 @@ def w_hdr_xns(tier='quick'):
         out.append((sc, Info(wsdl=w, svc='OrdersService', headers_ns={'AuthToken': sec, 'TraceInfo': NSW},
                              ops=[dict(name='GetQuote', body_el='GetQuoteRequest', headers=['AuthToken', 'TraceInfo'], has_output=True, out_el='GetQuoteResponse')])))
     return out
+
+
+# ------------------------------------------------------------------------------------------------ C13: departures
+
+QNAME_ATTRS = {'type', 'base', 'ref', 'element', 'message', 'binding', 'itemType'}
+
+
+def departure_doc(xml_text, budget=1, tag=''):
+    """a concrete document in which EVERY attribute may be missing, every element may be missing and every QName-valued
+    attribute may dangle or point at its own component; at most `budget` departures at a time (z3 cardinality constraint)"""
+    import z3
+    from xmltree import parse_xml
+    from sym import SymVal, G
+    doc = parse_xml(xml_text)
+    flags = []
+    sels = []
+    for idx, n in enumerate(doc.nodes):
+        if n['kind'] != 'element':
+            continue
+        if idx != doc.nodes[0]['children'][0] and n['parent'] != 0:
+            b = z3.Bool('%sdrop_el_%d_%s' % (tag, idx, n['tag']))
+            flags.append(b)
+            n['present'] = ('present-unless', b)
+        new_attrs = []
+        own_name = next((v for k, v, p in n['attrs'] if k == 'name'), None)
+        for k, v, pres in n['attrs']:
+            b = z3.Bool('%sdrop_at_%d_%s' % (tag, idx, k))
+            flags.append(b)
+            val = v
+            if k in QNAME_ATTRS and isinstance(v, str):
+                pfx = v.split(':')[0] + ':' if ':' in v else ''
+                opts = [v, pfx + 'DoesNotExist'] + ([pfx + own_name] if own_name and pfx + own_name != v else [])
+                sel = Selector('%sqn_%d_%s' % (tag, idx, k), opts)
+                sels.append(sel)
+                val = sel.sym()
+            new_attrs.append((k, val, ('present-unless', b)))
+        n['attrs'] = new_attrs
+    dom = z3.And(*[sel.domain for sel in sels]) if sels else z3.BoolVal(True)
+    return doc, flags, sels, dom
